@@ -1014,6 +1014,10 @@ func c18R11(p *core.Prog, r *core.Report) {
 					deletes = append(deletes, ins)
 				}
 			}
+			// the table clean-up extracted into a helper: the call is the access
+			if c := core.StaticCallee(ins); c != nil && core.InModule(c) && c.Blocks != nil && c11AccessesClientTable(c) {
+				deletes = append(deletes, ins)
+			}
 		}
 	}
 	if len(stores) == 0 || len(deletes) == 0 {
@@ -1114,4 +1118,30 @@ func c18R12(p *core.Prog, r *core.Report) {
 	default:
 		r.Hold(rule, key, p.Pos(fn.Pos()), "id tested before the lookup")
 	}
+}
+
+// c11AccessesClientTable: does fn look up or delete in a map with a key loaded
+// from a proxy's clientId?
+func c11AccessesClientTable(fn *ssa.Function) bool {
+	for _, b := range fn.Blocks {
+		for _, ins := range b.Instrs {
+			var k ssa.Value
+			switch x := ins.(type) {
+			case *ssa.Call:
+				if bi, ok := x.Call.Value.(*ssa.Builtin); ok && bi.Name() == "delete" && len(x.Call.Args) == 2 {
+					k = x.Call.Args[1]
+				}
+			case *ssa.Lookup:
+				if _, ok := x.X.Type().Underlying().(*types.Map); ok {
+					k = x.Index
+				}
+			}
+			if u, ok := k.(*ssa.UnOp); ok {
+				if kk, ok := storeKey(u.X); ok && kk == fk("server.ProxyServerProtocol", "clientId") {
+					return true
+				}
+			}
+		}
+	}
+	return false
 }
